@@ -172,6 +172,29 @@ Definition age (s : store) (d : Z) : store :=
   mkS (map (fun r => mkI (i_id r) (i_worker r) (i_status r) (i_reason r) (i_cmd r) (i_share r) (i_upd r - d) (i_rest r)) (insts s))
       (map (fun r => mkT (t_id r) (t_ins r) (t_gid r) (t_deps r) (t_timeout r) (t_status r) (t_reason r) (t_traces r) (t_upd r - d) (t_rest r)) (tasks s)).
 
+(* ------------------------------------------------------------------ the leader's watchdog sweeps (pkg/mod/watchdog.go)
+   as read-then-write rounds not interleaved with anybody else *)
+(* stored status codes: task running 2, failed 5; instance init 1, scheduled 2, failed 5; reason class watchdog = 1 *)
+Definition expired_selected (now : Z) (s : store) : list trec :=
+  list_tasks now s (mkTF [] 0 [2] true).
+
+Definition expired_round (now : Z) (s : store) : store :=
+  fold_left (fun acc r =>
+               let acc1 := fst (patch_ins now acc (t_ins r) None 5 None false 0 0 false) in
+               fst (patch_task now acc1 (t_id r) 5 1 []))
+            (expired_selected now s) s.
+
+Definition left_behind_selected (now timeout : Z) (s : store) : list irec :=
+  list_ins s (mkIF 0 [2] (now - timeout) false 0).
+
+Definition left_behind_round (now timeout : Z) (s : store) : store :=
+  fold_left (fun acc i =>
+               fst (update_ins now acc (mkI (i_id i) (i_worker i) 1 (i_reason i) (i_cmd i) (i_share i) 0 (i_rest i))))
+            (left_behind_selected now timeout s) s.
+
+(** context deadline handed to an action: the task's own timeout, or the worker default when 0 *)
+Definition action_timeout (dflt own : Z) : Z := if Z.eqb own 0 then dflt else own.
+
 (* ------------------------------------------------------------------ operations as data *)
 Inductive sop :=
 | OCreateTask (r : trec) | OCreateIns (r : irec)
@@ -185,7 +208,8 @@ Inductive sop :=
 | OGetTask (id : Z) | OGetIns (id : Z)
 | OListIns (f : ifilter) | OListTasks (f : tfilter)
 | ODeleteTasks (ids : list Z) | ODeleteInss (ids : list Z)
-| OAge (d : Z).
+| OAge (d : Z)
+| OExpiredRound | OLeftBehindRound (timeout : Z).
 
 Definition sstep (now : Z) (s : store) (o : sop) : store * reply :=
   match o with
@@ -205,6 +229,8 @@ Definition sstep (now : Z) (s : store) (o : sop) : store * reply :=
   | ODeleteTasks ids => (delete_tasks s ids, ROk)
   | ODeleteInss ids => (delete_inss s ids, ROk)
   | OAge d => (age s d, ROk)
+  | OExpiredRound => (expired_round now s, ROk)
+  | OLeftBehindRound to => (left_behind_round now to s, ROk)
   end.
 
 (* ------------------------------------------------------------------ worker key (keeper.CheckWorkerKey) *)
